@@ -11,6 +11,15 @@ each compiled with -g at O0 and O2:
   worker pool, the parent process deduplicates.
 * family ``path`` - the single-path histories step^k, next^k, stepi^k, nexti^k
   run to completion.
+* family ``tagged`` - a second set of debuggees (programs/dbg_tagged) whose
+  PRINT statements announce their own source position; the stop rules
+  (stepping stops in every simple statement, a line breakpoint stops exactly
+  at the arrivals at the first executable statement at or after the line,
+  next stays out of callees, a deleted breakpoint never stops) are judged
+  against a ground truth computed from the SOURCE TEXT (a small reference
+  interpreter) and the FREE RUN's device trace only - module.debug_info is
+  not consulted, so a wrong debug map cannot vouch for itself
+  (qv/c12_tagged.py).
 
 Oracle = the program's own free run (impl.run_module with a monitor that
 records, before every tick, the pc, a structural snapshot of memory and the
@@ -28,11 +37,15 @@ import types
 from .. import impl
 from ..dbgdrive import Debuggee, Session, frame_depth
 from ..explore import memory_view
+from .. import c12_tagged as tgd
 
 LEVEL = 'model_checking'
 
 ROOT = os.path.dirname(os.path.dirname(os.path.dirname(os.path.abspath(__file__))))
 PROG_DIR = os.path.join(ROOT, 'programs', 'dbg')
+TAGGED_DIR = os.path.join(ROOT, 'programs', 'dbg_tagged')
+# tagged family: number of leading `step`s before `break L` (None = every stop of step^k)
+TAGGED_PREFIX = {'quick': 3, 'thorough': None}
 OPTS = (0, 2)
 MOVES = ('step', 'next', 'stepi', 'nexti', 'continue')
 DEPTH = {'quick': 4, 'thorough': 6}
@@ -514,6 +527,79 @@ def path_chunk(chunk):
 
 
 # ---------------------------------------------------------------------------
+# family tagged
+
+_TCACHE = {}
+
+
+def load_tagged():
+    out = []
+    for fn in sorted(glob.glob(os.path.join(TAGGED_DIR, '*.bas'))):
+        with open(fn) as f:
+            out.append((os.path.basename(fn)[:-4], f.read()))
+    return out
+
+
+def get_tagged(name, src, opt):
+    k = (name, opt)
+    tg = _TCACHE.get(k)
+    if tg is None:
+        tg = _TCACHE[k] = tgd.Tagged(name, src, opt)
+    return tg
+
+
+def tagged_history(tg, spec):
+    """the command list of a history spec; `run_history` cuts it one command
+    after the program has finished"""
+    bound = 2 * len(tg.model.visits) + 10
+    kind = spec[0]
+    if kind == 'step':
+        return ['step'] * bound
+    if kind == 'next':                       # step^j next^k
+        return ['step'] * spec[1] + ['next'] * bound
+    if kind == 'break':                      # step^j, break L, continue^k
+        return ['step'] * spec[1] + [f'break {spec[2]}'] + ['continue'] * bound
+    if kind == 'del-before':                 # break L, delbr L, continue
+        return [f'break {spec[1]}', f'delbr {spec[1]}', 'continue', 'continue']
+    if kind == 'del-after':                  # break L, continue, delbr L, continue
+        return [f'break {spec[1]}', 'continue', f'delbr {spec[1]}', 'continue', 'continue']
+    raise ValueError(spec)
+
+
+def tagged_specs(tg, tier):
+    nv = len(tg.model.visits)
+    pre = TAGGED_PREFIX[tier]
+    jmax = nv + 1 if pre is None else min(pre, nv + 1)
+    specs = [('step',)]
+    specs += [('next', j) for j in range(0, nv + 2)]
+    for L in range(1, tg.nlines + 2):
+        specs += [('break', j, L) for j in range(0, jmax + 1)]
+        specs += [('del-before', L), ('del-after', L)]
+    return specs
+
+
+def tagged_chunk(chunk):
+    impl.parse_cache(True)
+    viol = []
+    stats = {'transitions': 0, 'validated': 0, 'tagged_histories': 0, 'tagged_classes': {}}
+    for name, src, opt, spec in chunk:
+        tg = get_tagged(name, src, opt)
+        vs, obs, info = tgd.run_history(tg, tagged_history(tg, spec))
+        hist = info['executed']
+        stats['transitions'] += len(hist)
+        stats['validated'] += len(hist)
+        stats['tagged_histories'] += 1
+        for k, n in info['classes'].items():
+            stats['tagged_classes'][k] = stats['tagged_classes'].get(k, 0) + n
+        for v in vs:
+            feat = {'family': 'tagged'}
+            feat.update(v['features'])
+            case = {'program': name, 'opt': opt, 'src': src, 'script': None, 'history': list(hist)}
+            viol.append((feat, case, v['expected'], v['observed'], len(hist)))
+    return viol, stats
+
+
+# ---------------------------------------------------------------------------
 
 CFGS = []
 
@@ -543,6 +629,36 @@ def run(chk):
         if bytes(d0.module.code) != bytes(d2.module.code):
             o0o2_differ += 1
         alph[n] = len(a0)
+    # ---- tagged debuggees: ground truth from the source text and the free run
+    if not chk.only or 'tagged' in chk.only:
+        tprogs = load_tagged()
+        if only_progs:
+            tprogs = [p for p in tprogs if any(p[0].startswith(x) for x in only_progs.split(','))]
+        items = []
+        per_prog = {}
+        try:
+            for n, s in tprogs:
+                for o in OPTS:
+                    tg = get_tagged(n, s, o)
+                    specs = tagged_specs(tg, chk.tier)
+                    per_prog[f'{n}/O{o}'] = {'histories': len(specs), 'announcements': tg.n,
+                                             'statement_visits_of_the_model': len(tg.model.visits)}
+                    items += [(n, s, o, sp) for sp in specs]
+        except tgd.ModelError as e:
+            print(f'HARNESS-ERROR: tagged debuggee rejected: {e}')
+            raise SystemExit(2)
+        for viol, st in chk.pmap(tagged_chunk, items, chunk=12):
+            chk.add_violations(viol)
+            chk.merge_stats(st)
+        fams['tagged'] = {
+            'programs': [p[0] for p in tprogs],
+            'histories': ['step^k', 'step^j next^k for every j', 'step^j, break L, continue^k for every line L (and one past '
+                          'the end) and j <= %s' % ('every stop of step^k' if TAGGED_PREFIX[chk.tier] is None
+                                                    else TAGGED_PREFIX[chk.tier]),
+                          'break L, delbr L, continue', 'break L, continue, delbr L, continue'],
+            'run_until': 'finished + 1 further command', 'cases': len(items), 'per_program': per_prog}
+    else:
+        chk.cov['exhaustive'] = False
     # ---- paths
     if not chk.only or 'path' in chk.only:
         items = [(cfg, cmd) for cfg in cfgs for cmd in ('step', 'next', 'stepi', 'nexti')]
@@ -620,8 +736,13 @@ def run(chk):
     need = ['step:new-stmt', 'next:new-stmt', 'continue:user-bp', 'continue:finished',
             'step:finished', 'stepi:same-stmt', 'break:set', 'delbr:deleted',
             'step:probe-finished', 'next:user-bp']
+    tneed = ['step:coverage-judged', 'next:over-a-call', 'break:certain-explains-stops',
+             'break:uncertain-explains-stops', 'break:certain-explains-no-stop',
+             'continue:finished-after-delbr', 'continue:probe-finished']
+    tclasses = cov.get('tagged_classes', {})
     if not chk.only:
-        missing = [n for n in need if not classes.get(n)]
+        missing = [n for n in need if not classes.get(n)] + \
+            ['tagged/' + n for n in tneed if not tclasses.get(n)]
         if missing:
             chk.add_violations([({'family': 'self-check', 'divergence': 'vacuous', 'missing': missing},
                                  {}, 'every mechanism exercised', missing, 0)])
@@ -633,7 +754,14 @@ def run(chk):
     chk.assumptions = [
         'the debuggees are the %d programs of programs/dbg (each validated: free run ends by END, '
         'falling off the end or a trap; identical behaviour at O0 and O2)' % len(progs),
-        'statement attribution is taken from module.debug_info.find_stmt (validated by C11)',
+        'families bfs and path: statement attribution is taken from module.debug_info.find_stmt (validated by C11)',
+        'family tagged: statement attribution comes from the source text through the reference interpreter of '
+        'qv/c12_tagged.py, validated on every debuggee (its announcement sequence equals the free run\'s); stops are '
+        'observed through the device trace and the call-frame depth only',
+        'family tagged: PRINT, SUB call, GOSUB and RETURN are taken to have code and to be entered at their first '
+        'instruction; whether any other statement (header, clause, terminator, assignment, GOTO, EXIT, END) has code, '
+        'and where a loop-back or clause jump lands in it, is unspecified: a breakpoint that resolves to such a '
+        'statement may stop at any subset of the moments at which control is at that statement in the source',
         'simple statement = judged on the source text (not a block header/footer/clause, not a one-line IF)',
         'a line set twice and deleted once is unspecified (either still set or not)',
         'histories that reach the same canonical state (VM state + breakpoint specs + finished flag) '
@@ -641,7 +769,9 @@ def run(chk):
         'a history is not extended after the machine has left the path of the free run',
     ]
     chk.finish(
-        rule=('every command history of length <= max_depth over the alphabet (plus step^k, next^k, stepi^k, '
+        rule=('family tagged: every listed history is run under the real debugger and its stops (number of announcements made, '
+              'call nesting) are judged against the source-level model; families bfs/path: '
+              'every command history of length <= max_depth over the alphabet (plus step^k, next^k, stepi^k, '
               'nexti^k to completion) is replayed on a fresh machine under the real debugger and judged against '
               'the tick-by-tick free run of the same module; evaluations = transitions executed; '
               'distinct_nontrivial = distinct canonical states (VM state + breakpoint specs + finished flag) whose '
@@ -651,7 +781,33 @@ def run(chk):
                    'programs_whose_O0_and_O2_code_differ': o0o2_differ})
 
 
+def replay_tagged(rec):
+    case = rec['case']
+    tg = tgd.Tagged(case['program'], case['src'], case['opt'])
+    print(f"--- tagged program {case['program']} O{case['opt']} -g")
+    for i, ln in enumerate(case['src'].split('\n'), 1):
+        print(f'{i:3} {ln}')
+    print('--- free run announces:', ' '.join(tg.free_ann), f'({tg.free_end})')
+    print('--- the model: statement visits as (line:col kind, announcements made)')
+    print('   ', ' '.join(f'{tg.model.stmts[i].where()}{tg.model.stmts[i].kind}@{c}' for i, c, d, e in tg.model.visits))
+    vs, obs, info = tgd.run_history(tg, case['history'], probes=len(case['history']))
+    for h, c, fin in obs:
+        print(f'(qdb) {h:<10} -> announcements made: {c}{"  FINISHED" if fin else ""}')
+    rc = 0
+    want = rec.get('features', {}).get('divergence')
+    for v in vs:
+        print('   VIOLATION', v['features']['divergence'], '| expected:',
+              json.dumps(impl.jsonable(v['expected']), default=str),
+              '| observed:', json.dumps(impl.jsonable(v['observed']), default=str))
+        if want is None or v['features']['divergence'] == want:
+            rc = 1
+    print('STILL VIOLATES' if rc else 'no violation on replay')
+    return rc
+
+
 def replay(rec):
+    if rec.get('features', {}).get('family') == 'tagged':
+        return replay_tagged(rec)
     case = rec['case']
     dbe = Debuggee(case['program'], case['src'], case['opt'], case.get('script'))
     free = Free(dbe)
